@@ -232,6 +232,20 @@ class Interp:
             mps = mps.to_complex()
             ph = np.exp(1j * 0.7)
             mps = mps.scale(ph)
+            if ins["rng"] % 3:
+                # genuinely complex tensors (a real state times a phase has real transfer matrices, so a misplaced conj() inside a
+                # contraction stays invisible): a + i b with an independent second random state of the sector; the register's dense
+                # model is read from the finished object, as for every constructor
+                try:
+                    np.random.seed(ins["rng"] + 7919)
+                    other = Mps.random(self.fresh_model(), qarg, max(1, ins["m"] // 2 if isinstance(ins["m"], int) else 1), percent=1.0)
+                    both = mps.add(other.to_complex().scale(0.8j))
+                    d2 = both.todense()
+                    if np.all(np.isfinite(d2)) and np.linalg.norm(d2) > 1e-6:
+                        mps = both
+                        self.r.classes.append("rand.genuinely_complex")
+                except (FloatingPointError, ZeroDivisionError, ValueError, AssertionError, IndexError):
+                    pass
         self.add_state(mps, q, "rand")
 
     def i_prod(self, ins):
